@@ -58,7 +58,7 @@ theorem feed_from_user {s : Srv} {b : Bot} (hw : SrvWF s) (hc : Coupled s b) {k 
   have huo := hw.uok hu
   have hne : u.mask ≠ b.nick := mask_ne_nick hbn
   refine ⟨coupled_seen hc hu (hw.userOK hu).1 (fun _ => trivial), ?_⟩
-  rw [feed_plain b _ hne hns (by rw [hirc])]
+  rw [feed_plain b _ (tagOK_of_ok hc.isup _) hne hns (by rw [hirc])]
   rw [hirc, pfxUpd_user huo, prelude_user huo _ _ hnn]
   rfl
 
@@ -75,12 +75,12 @@ theorem feed_from_source {s : Srv} {b : Bot} (hw : SrvWF s) (hc : Coupled s b) {
   · have hsv := serverOK_of_cfg hw.cfg
     have hne : s.cfg.server ≠ b.nick := server_ne_nick hsv hbn
     refine ⟨b, hc, rfl, rfl, ?_⟩
-    rw [feed_plain b _ hne hns (by rw [hirc])]
+    rw [feed_plain b _ (tagOK_of_ok hc.isup _) hne hns (by rw [hirc])]
     rw [hirc, pfxUpd_server hsv.noBang hne, prelude_server hsv.noBang]
   · have huo := hw.uok hu
     have hne : u.mask ≠ b.nick := mask_ne_nick hbn
     refine ⟨b.seen u, coupled_seen hc hu (hw.userOK hu).1 (fun _ => trivial), rfl, rfl, ?_⟩
-    rw [feed_plain b _ hne hns (by rw [hirc])]
+    rw [feed_plain b _ (tagOK_of_ok hc.isup _) hne hns (by rw [hirc])]
     rw [hirc, pfxUpd_user huo, prelude_user huo _ _ hnn]
     rfl
 
@@ -112,7 +112,7 @@ theorem coupled_topic {s : Srv} {b : Bot} (hw : SrvWF s) (hc : Coupled s b) (src
           rw [hbc] at hrel0
           have hchan : b0.chan sc.name = some ch := by rw [Bot.chan, hcw.key]; exact hbc
           simp only [Bot.stateCmd, cmdOf_TOPIC, Bot.doTopic, hchan]
-          refine coupled_update' hc0 (lower c) rfl rfl rfl rfl rfl rfl ?_ ?_ ?_ rfl rfl rfl rfl rfl ?_ ?_
+          refine coupled_update' hc0 (lower c) rfl rfl rfl rfl rfl rfl ?_ ?_ ?_ rfl rfl rfl rfl rfl rfl ?_ ?_
           · intro k hk; exact aget_aset_ne _ _ (Ne.symm hk)
           · intro k hk; simp only [Bot.setChan, hcw.key]; exact aget_aset_ne _ _ (Ne.symm hk)
           · simp only [Bot.setChan, hcw.key, aget_aset_self, ChanRel]
@@ -124,7 +124,7 @@ theorem coupled_topic {s : Srv} {b : Bot} (hw : SrvWF s) (hc : Coupled s b) (src
           · intro sc' h0; rw [hch] at h0; cases h0
       · -- not on the channel: nothing is sent
         simp only [hb, Bool.false_eq_true, ↓reduceIte, recvAll_nil]
-        refine coupled_update' hc (lower c) rfl rfl rfl rfl rfl rfl ?_ (fun _ _ => rfl) ?_ rfl rfl rfl rfl rfl ?_ ?_
+        refine coupled_update' hc (lower c) rfl rfl rfl rfl rfl rfl ?_ (fun _ _ => rfl) ?_ rfl rfl rfl rfl rfl rfl ?_ ?_
         · intro k hk; exact aget_aset_ne _ _ (Ne.symm hk)
         · simp only [aget_aset_self]
           have hb' : sc.has s.botKey = false := by simpa [Srv.botIn] using hb
@@ -142,14 +142,15 @@ theorem coupled_topic {s : Srv} {b : Bot} (hw : SrvWF s) (hc : Coupled s b) (src
 
 theorem coupled_users_update {s : Srv} {b b' : Bot} (hc : Coupled s b) (k : Str) (u' : SUser) (told' : List Str)
     (hnick : b'.nick = b.nick) (hch : b'.channels = b.channels)
-    (hcn : b'.cfgNick = b.cfgNick) (hci : b'.cfgIdent = b.cfgIdent)
+    (hcn : b'.cfgNick = b.cfgNick) (hci : b'.cfgIdent = b.cfgIdent) (hsup : b'.isup = b.isup)
     (hn2h : ∀ k', k' ≠ k → aget b'.n2h k' = aget b.n2h k')
     (hsub : ∀ x, x ∈ told' → x ≠ k → x ∈ s.told)
     (hk : k ∈ told' → aget b'.n2h k = some u'.mask)
     (hpfx : k ≠ s.botKey → b'.pfx = b.pfx)
     (hpfx' : k = s.botKey → ∀ kc sc, aget s.chans kc = some sc → sc.has s.botKey = true → b'.pfx = u'.mask) :
     Coupled { s with users := aset s.users k u', told := told' } b' := by
-  refine ⟨by rw [hnick]; exact hc.nick, ?_, ?_, ?_, by rw [hcn]; exact hc.cfgNick, by rw [hci]; exact hc.cfgIdent⟩
+  refine ⟨by rw [hnick]; exact hc.nick, ?_, ?_, ?_, by rw [hcn]; exact hc.cfgNick, by rw [hci]; exact hc.cfgIdent,
+    by rw [hsup]; exact hc.isup⟩
   · intro kc; rw [hch]; exact hc.chans kc
   · intro k' u hu hv
     have hv' : k' ∈ told' := hv
@@ -182,7 +183,7 @@ theorem coupled_connect {s : Srv} {b : Bot} (hw : SrvWF s) (hc : Coupled s b) (n
     simp only [Bool.and_eq_true, Option.isNone_iff_eq_none] at hcond
     have hfree : aget s.users (lower n) = none := hcond.2
     simp only [recvAll_nil]
-    refine coupled_users_update hc (lower n) ⟨n, i, ho⟩ _ rfl rfl rfl rfl (fun _ _ => rfl) ?_ ?_ (fun _ => rfl) ?_
+    refine coupled_users_update hc (lower n) ⟨n, i, ho⟩ _ rfl rfl rfl rfl rfl (fun _ _ => rfl) ?_ ?_ (fun _ => rfl) ?_
     · intro x hx _; exact (mem_sdel.mp hx).2
     · intro hx; exact absurd rfl (mem_sdel.mp hx).1
     · intro e
@@ -248,12 +249,12 @@ theorem coupled_chghost {s : Srv} {b : Bot} (hw : SrvWF s) (hc : Coupled s b) (n
                 | cons _ _ => rfl
               simp [e, h1, h2, h3]
             · simp [e]
-          rw [feed_plain b _ hne (setters_out_ok "CHGHOST".toList (by decide)) (by rw [hirc])]
+          rw [feed_plain b _ (tagOK_of_ok hc.isup _) hne (setters_out_ok "CHGHOST".toList (by decide)) (by rw [hirc])]
           rw [hirc, prelude_user huo _ _ (by decide)]
           simp only [Bot.stateCmd, cmdOf_CHGHOST, Bot.doChghost, msg_nick_user huo]
         rw [hfeed]
         have hmask : mkHostmask u.nick i ho = ({ u with ident := i, host := ho } : SUser).mask := rfl
-        refine coupled_users_update hc (lower n) { u with ident := i, host := ho } _ rfl rfl rfl rfl ?_ ?_ ?_ ?_ ?_
+        refine coupled_users_update hc (lower n) { u with ident := i, host := ho } _ rfl rfl rfl rfl rfl ?_ ?_ ?_ ?_ ?_
         · intro k' hk'
           show aget (aset (aset b.n2h (lower u.nick) u.mask) (lower u.nick) (mkHostmask u.nick i ho)) k' = _
           rw [hkey, aget_aset_ne _ _ (Ne.symm hk'), aget_aset_ne _ _ (Ne.symm hk')]
@@ -277,7 +278,7 @@ theorem coupled_chghost {s : Srv} {b : Bot} (hw : SrvWF s) (hc : Coupled s b) (n
         · -- nobody tells the bot
           rename_i hnb
           simp only [recvAll_nil]
-          refine coupled_users_update hc (lower n) { u with ident := i, host := ho } _ rfl rfl rfl rfl (fun _ _ => rfl) ?_ ?_ (fun _ => rfl) ?_
+          refine coupled_users_update hc (lower n) { u with ident := i, host := ho } _ rfl rfl rfl rfl rfl (fun _ _ => rfl) ?_ ?_ (fun _ => rfl) ?_
           · intro x hx _; exact (mem_sdel.mp hx).2
           · intro hx; exact absurd rfl (mem_sdel.mp hx).1
           · intro e; exact absurd e hnb
